@@ -269,7 +269,7 @@ impl Linter {
 
     /// Import words into the dictionary.
     pub fn import_words(&mut self, additional_words: Vec<String>) {
-        let init_len = self.user_dictionary.word_count();
+        let before = self.user_dictionary.clone();
 
         self.user_dictionary
             .extend_words(additional_words.iter().map(|word| {
@@ -279,8 +279,9 @@ impl Linter {
                 )
             }));
 
-        // Only synchronize if we added words that were not there before.
-        if self.user_dictionary.word_count() > init_len {
+        // Only synchronize if the dictionary changed: a new word, or a new spelling of a known one
+        // (which replaces the entry without changing the word count).
+        if self.user_dictionary != before {
             self.synchronize_lint_dict();
         }
     }
